@@ -115,7 +115,7 @@ def valid(lst):
     return not any(same_letter(a, b) for a, b in itertools.combinations(lst, 2))
 
 
-def check_list(w, tag, ds, want):
+def check_list(w, tag, ds, want, absent=()):
     """ds.dim_list must be exactly the model list (same Dimension objects in the same order) and consistent"""
     got = list(ds.dim_list)
     w.ob(f"{tag}:dims", ids(got) == ids(want), info=f"got {[d.name for d in got]} want {[d.name for d in want]}")
@@ -123,6 +123,22 @@ def check_list(w, tag, ds, want):
     w.ob(f"{tag}:len_ndim_bool", len(ds) == len(got) and ds.ndim == len(got) and bool(ds) == (len(got) > 0))
     w.ob(f"{tag}:shape", tuple(ds.shape) == tuple(len(d.items) for d in got) and ds.total_size == int(np.prod([len(d.items) for d in got] or [1])))
     w.ob(f"{tag}:letters_unique", valid(got))
+    # lookup by name agrees with the list (and nothing else is a member): the set's lookup tables follow its list
+    ok = True
+    for d in got:
+        try:
+            ok = ok and ds[d.name] is d and d.name in ds and ds.index(d.name) == got.index(d) and ds.size(d.name) == len(d.items)
+        except Exception:
+            ok = False
+    for x in absent:
+        if not any(x is d for d in got):
+            try:
+                ds[x.name]
+                ok = False
+            except Exception:
+                pass
+            ok = ok and x.name not in ds
+    w.ob(f"{tag}:lookup_by_name_agrees_with_list", ok)
 
 
 def make_sets(cfg, w, env):
@@ -158,6 +174,12 @@ def run(cfg, w):
     except Exception:
         w.ob("constructor_rejects_only_clashing_letters", not (valid(A) and valid(B)))
         return
+    # the receiver has been used before (lookups by name, shape): whatever it caches is filled when the operation starts
+    for d in A:
+        sa[d.name], sa.size(d.name)
+    for d in B:
+        sb[d.name]
+    sa.shape, sb.shape
     if h == "binop":
         op = cfg["op"]
         a_in_b = [d for d in A if has_letter(B, d)]
@@ -178,8 +200,8 @@ def run(cfg, w):
         # the result can be modified in place without affecting the operands
         f = probe_dim(env, w, A + B)
         res.append(f, inplace=True)
-        check_list(w, "receiver_after_inplace_edit_of_result", sa, A)
-        check_list(w, "other_after_inplace_edit_of_result", sb, B)
+        check_list(w, "receiver_after_inplace_edit_of_result", sa, A, absent=[f])
+        check_list(w, "other_after_inplace_edit_of_result", sb, B, absent=[f])
         if op in ("or", "and", "sub") and len(B) == 1:
             r2 = {"or": lambda: sa | B[0], "and": lambda: sa & B[0], "sub": lambda: sa - B[0]}[op]()
             w.ob("single_dimension_operand", ids(r2.dim_list) == ids(want))
@@ -201,7 +223,7 @@ def run(cfg, w):
             check_list(w, "receiver", sa, A)
             f = probe_dim(env, w, A)
             res.append(f, inplace=True)
-            check_list(w, "receiver_after_inplace_edit_of_subset", sa, A)
+            check_list(w, "receiver_after_inplace_edit_of_subset", sa, A, absent=[f])
             check_list(w, "subset_after_inplace_edit", res, want + [f])
             if A and not sel:
                 try:
@@ -252,7 +274,7 @@ def run(cfg, w):
             w.ob("copy_is_new_object_with_own_list", c is not sa and c.dim_list is not sa.dim_list)
             f = probe_dim(env, w, A)
             c.append(f, inplace=True)
-            check_list(w, "receiver_after_inplace_edit_of_copy", sa, A)
+            check_list(w, "receiver_after_inplace_edit_of_copy", sa, A, absent=[f])
             return
     if h in ("mutate", "history"):
         steps = [(cfg["op"], cfg["inplace"])] if h == "mutate" else list(zip(cfg["seq"], cfg["ips"]))
@@ -329,7 +351,7 @@ def run(cfg, w):
                 probe = probe_dim(env, w, want + before)
                 snapshot = list(res.dim_list)
                 res.append(probe, inplace=True)
-                check_list(w, f"{tag}:receiver_after_inplace_edit_of_result", holder, before)
+                check_list(w, f"{tag}:receiver_after_inplace_edit_of_result", holder, before, absent=[probe])
                 res.drop(probe.name, inplace=True)
                 w.ob(f"{tag}:probe_removed", ids(res.dim_list) == ids(snapshot))
                 cur, model = res, want
